@@ -200,6 +200,9 @@ def times_for(n, grid="uniform"):
     the jump-time simulations hand over."""
     if grid == "uniform":
         return L()["TimeGrid"](start=0.0, end=1.0, num=n)
+    if grid == "late-start":
+        # a legal time grid whose first fixing is after time 0 (seasoned / forward-starting averaging)
+        return np.array([0.25, 0.45, 0.6, 0.8, 0.9][: n - 1] + [1.0])
     base = [0.0, 0.1, 0.4, 0.55, 0.7][: n - 1] + [1.0]
     return np.array(base)
 
@@ -438,7 +441,7 @@ def _sub_average(sh, case):
             lo, hi = min(path), max(path)
             for rep in REPS:
                 for shape in ("1d", "row"):
-                    for grid in grids_for(n):
+                    for grid in grids_for(n) + ["late-start"]:
                         sp = np.array(path) if shape == "1d" else np.array([path])
                         p = Product(payoff_underlying=UN.Asian(), payoff=PO.Forward(0.0), maturity=1.0)
                         p.update(_rep(rep))
